@@ -16,9 +16,16 @@ HERE = os.path.dirname(os.path.abspath(__file__))
 
 KIND = "ssh"
 SPECS = ["C20"]
-THEOREMS = []
-QUICK_N, THOROUGH_N = 12000, 60000
-QUICK_BUDGET, THOROUGH_BUDGET = 45, 600
+THEOREMS = [
+    "C20.parseSsh_sshArgv", "C20.parseScp_scpArgv", "C20.sshHead_error", "C20.scpAuth_error",
+    "C20.connect_spec", "C20.scpFrom_spec", "C20.copy_spec", "C20.run_spec",
+    "C20.connect_canon", "C20.scpFrom_canon", "C20.copy_by_role", "C20.copy_to_remote_canon",
+    "C20.copy_from_remote_canon", "C20.copy_same_machine", "C20.copy_unsupported",
+    "C20.refused_authenticator", "C20.count_batchMode", "C20.count_noHostKey", "C20.count_ctlMaster",
+    "C20.controlPath_mem", "C20.spec_parsed_params",
+]
+QUICK_N, THOROUGH_N = 14000, 90000
+QUICK_BUDGET, THOROUGH_BUDGET = 40, 900
 CASE_WALL = 20
 RULE = ("half of the cases are drawn uniformly from the small-scope product (user, port, ignore_hostkey, ssh_config, "
         "authenticator incl. tbot-Path keys on the executing and on a foreign host, multiplexing: 3x3x3x3x8x3 "
